@@ -134,13 +134,15 @@ static void* stub_alloc(int tag, size_t n) {
     void* p = NULL;
     if (fail) { w->ledger_fail++; w->alloc_failed_in_call++; }
     else {
-        if (w->reuse_mode && w->cache_ptr && w->cache_size == n) { p = w->cache_ptr; w->cache_ptr = NULL; }   /* address reuse, like a LIFO allocator */
-        else p = malloc(n);              /* exact size: ASan red zones sit right behind the block */
+        void* base;
+        if (w->reuse_mode && w->cache_ptr && w->cache_size == n) { p = w->cache_ptr; base = w->cache_base; w->cache_ptr = NULL; }   /* address reuse, like a LIFO allocator */
+        else if (w->align8_mode) { base = malloc(n + 8); p = base ? (uint8_t*)base + 8 : NULL; }     /* pool allocators with an 8-byte header hand out such blocks */
+        else { base = malloc(n); p = base; }   /* exact size: ASan red zones sit right behind the block */
         if (!p) pv_fatal("world: malloc failed");
         uint8_t* b = p;                  /* changing, never-zero junk */
         for (size_t i = 0; i < n; ++i) { uint8_t v = (uint8_t)pv_rand64(&w->junk_rng); b[i] = v ? v : 0xA7; }
         if (w->nlive >= PV_MAXLIVE) pv_fatal("world: ledger full");
-        w->live[w->nlive].ptr = p; w->live[w->nlive].size = n; w->live[w->nlive].call = w->call_id; w->nlive++;
+        w->live[w->nlive].ptr = p; w->live[w->nlive].base = base; w->live[w->nlive].size = n; w->live[w->nlive].call = w->call_id; w->nlive++;
         for (int i = 0; i < 64; ++i) if (w->freed_ring[i] == p) w->freed_ring[i] = NULL;
         w->ledger_allocs++;
     }
@@ -169,11 +171,12 @@ static void stub_free(int tag, void* ptr) {
                     (const uint8_t*)w->ev[k].ptr + w->ev[k].len >= b + n) wiped = true;
             if (!wiped) verdict |= PV_FREE_NOWIPE;
             if (e) e->len = n;
+            void* base = w->live[i].base;
             w->live[i] = w->live[--w->nlive];
             w->freed_ring[w->freed_pos++ % 64] = ptr;
             w->ledger_frees++;
-            if (w->reuse_mode) { if (w->cache_ptr) free(w->cache_ptr); w->cache_ptr = ptr; w->cache_size = n; }
-            else free(ptr);
+            if (w->reuse_mode) { if (w->cache_ptr) free(w->cache_base); w->cache_ptr = ptr; w->cache_base = base; w->cache_size = n; }
+            else free(base);
         }
     }
     if (e) { e->ptr = ptr; e->a = verdict; }
@@ -240,7 +243,7 @@ const pv_event* pv_ev_find(int kind, int nth) {
 bool pv_ledger_is_live(const void* p) { for (int i = 0; i < pv_w->nlive; ++i) if (pv_w->live[i].ptr == p) return true; return false; }
 int pv_ledger_live(void) { return pv_w->nlive; }
 void pv_ledger_forget_all(void) { pv_w->nlive = 0; }
-void pv_ledger_reclaim(int keep) { while (pv_w->nlive > keep && pv_w->nlive > 0) { free(pv_w->live[--pv_w->nlive].ptr); } }
+void pv_ledger_reclaim(int keep) { while (pv_w->nlive > keep && pv_w->nlive > 0) { free(pv_w->live[--pv_w->nlive].base); } }
 void pv_set_rand_script(const void* bytes, int n) { pv_w->rand_mode = 1; memcpy(pv_w->rand_script, bytes, (size_t)n); pv_w->rand_script_len = n; }
 void pv_set_rand_prng(void) { pv_w->rand_mode = 0; }
 
@@ -509,3 +512,50 @@ const char* pv_static_diff(void) {
     return "(no difference found)";
 }
 
+
+void pv_lang_length_range(const pv_mlang* L, long* min_total, long* max_total) {
+    long mn = 0, mx = 0;
+    for (int p = 0; p < 16; ++p) {
+        int lo = 1 << 30, hi = 0;
+        for (unsigned i = 0; i < PV_NWORDS; ++i) { if (p == 2 && (i & 1)) continue; if (L->len[i] < lo) lo = L->len[i]; if (L->len[i] > hi) hi = L->len[i]; }
+        mn += lo; mx += hi;
+    }
+    *min_total = mn + 15; *max_total = mx + 15;
+}
+bool pv_gen_exact_length(pv_rng* r, const pv_mlang* L, unsigned coin, long target, unsigned enabled, unsigned d[16], pv_mseed* seed_out) {
+    int lo = 1 << 30, hi = 0;
+    for (unsigned i = 0; i < PV_NWORDS; ++i) { if (L->len[i] < lo) lo = L->len[i]; if (L->len[i] > hi) hi = L->len[i]; }
+    for (int attempt = 0; attempt < 60; ++attempt) {
+        unsigned c[16]; long rem = target - 15; bool ok = true;
+        for (int k = 15; k >= 2 && ok; --k) {
+            long left = k;                                  /* positions k-1 .. 0 still to fill after this one */
+            long need_lo = rem - (long)hi * left, need_hi = rem - (long)lo * left;
+            if (need_lo < lo) need_lo = lo;
+            if (need_hi > hi) need_hi = hi;
+            if (need_lo > need_hi) { ok = false; break; }
+            /* a random admissible word whose length is inside the feasible window */
+            unsigned pick = 0; bool found = false;
+            for (int t = 0; t < 200 && !found; ++t) {
+                unsigned i = pv_randn(r, PV_NWORDS);
+                if (L->len[i] < need_lo || L->len[i] > need_hi) continue;
+                if (k == 2 && (i & 1)) continue;
+                if (k >= 3 && k <= 5 && (i & 1) && !(enabled & (1u << (5 - k)))) continue;
+                pick = i; found = true;
+            }
+            if (!found) { ok = false; break; }
+            c[k] = pick; rem -= L->len[pick];
+        }
+        if (!ok) continue;
+        unsigned start = pv_randn(r, 2048);
+        for (unsigned t = 0; t < 2048; ++t) {
+            unsigned x = (start + t) & 2047;
+            c[1] = x; c[0] = pv_m_checkvalue(c);
+            if ((long)L->len[(x ^ coin) & 2047] + (long)L->len[c[0]] == rem) {
+                if (seed_out) pv_m_unpack(c, seed_out);
+                memcpy(d, c, sizeof c); d[1] ^= coin & 2047;
+                return true;
+            }
+        }
+    }
+    return false;
+}
